@@ -92,9 +92,19 @@ def changed_files(rep: dict | None) -> dict[str, list[str]]:
     return out
 
 
-def load_seeds() -> dict[str, list[str]]:
+def reproduces_recorded_finding(code: str) -> bool:
+    """seeds that exist to replay a recorded defect of the clean tree (known_findings.json) in the program-space pass; the other
+    scenarios (sequences, pairs, line filters, ...) draw their programs from the rest, so that a recorded finding is not met again
+    under a second signature"""
+    return ("import __future__\n" in code and "from __future__ import" in code) or '"\u00e9\u00e9\u00e9"; requests.get' in code
+
+
+def load_seeds(include_findings: bool = False) -> dict[str, list[str]]:
     p = common.VERIF / "harness" / "corpus" / "seeds.json"
-    return json.loads(p.read_text()) if p.exists() else {}
+    seeds = json.loads(p.read_text()) if p.exists() else {}
+    if include_findings:
+        return seeds
+    return {k: [s for s in v if not reproduces_recorded_finding(s)] for k, v in seeds.items()}
 
 
 MANIFESTS = {
